@@ -22,10 +22,8 @@
 (*   panic "" or where the code panicked ("op": the call, "obs": reading   *)
 (*         the observables); a run ends with its panic line                *)
 (* viol accumulates <<line, rule, context>> (the first line of every rule  *)
-(* @ context); context = call @ mode of the                                *)
-(* specification before the call ("rto-after-open": a timeout recovery     *)
-(* whose timer fired outside an episode, "rto-after-rec": inside one,      *)
-(* "open+t": after such a timeout, before the duplicate count restarted).  *)
+(* @ context); context = call @ mode of the specification before the call *)
+(* ("open", "rec", "rto").                                                 *)
 (* After the first line of a run whose observables differ from the         *)
 (* specification's (or that panicked) the specification no longer mirrors  *)
 (* the objects: the rest of the run is consequence and is skipped (all     *)
